@@ -56,8 +56,9 @@ CLAIMS["C15"] = dict(
     text=("Deductive proof of the 64-bit continuation step of RTP timestamps (bit-vector semantics: the PTS advances by the signed "
           "32-bit difference for every previous/next timestamp pair, any wrap position) and of the integer rescaling helper "
           "(result within one unit of v*m/d for all non-negative v, m and positive d); every sender report processed by the receiver replaces its "
-          "NTP/RTP mapping; the sender records the RTP timestamp and the absolute time of one and the same packet (the last with PTS equal to DTS)."),
-    note=TRUST + "NTP encode/decode (float64 rounding), GlobalDecoder.Decode as a whole (maps, time.Now) and the extrapolation in rtpsender's report() (floating point) are not decided.",
+          "NTP/RTP mapping; the sender records the RTP timestamp and the absolute time of one and the same packet (the last with PTS equal to DTS)."
+          + B + "a sender report generated 0 to 100 hours after a packet lies on the writer's RTP/NTP mapping within one tick and one microsecond (560 reports; expected value computed exactly with big integers)."),
+    note=TRUST + "NTP encode/decode (float64 rounding) and GlobalDecoder.Decode as a whole (maps, time.Now) are not decided; the extrapolation in rtpsender's report() (floating point) is decided only on the bounded grid, on this platform (not proved).",
     design="DESIGN.md section 4, C15",
 )
 
